@@ -146,6 +146,8 @@ type Exec struct {
 	PC           []*smt.Term
 	Domain       []*smt.Term // input-domain constraints (regexes) only needed to make models realistic
 	eq           *eqState
+	pcSet        map[*smt.Term]bool
+	domSet       map[*smt.Term]bool
 	NoQuick      bool
 	prefix       []int
 	decisions    []int
@@ -316,13 +318,29 @@ func (ex *Exec) Assume(c *smt.Term) {
 // AssumeDomain records an input-domain constraint that is too expensive for every feasibility
 // query (regular-expression membership). Exploration over-approximates the domain without it;
 // obligations that come back sat are re-decided with it, and models always satisfy it.
-func (ex *Exec) AssumeDomain(c *smt.Term) { ex.Domain = append(ex.Domain, c) }
+func (ex *Exec) AssumeDomain(c *smt.Term) {
+	if ex.domSet == nil {
+		ex.domSet = map[*smt.Term]bool{}
+	}
+	if ex.domSet[c] || (c.IsConst && c.B) {
+		return
+	}
+	ex.domSet[c] = true
+	ex.Domain = append(ex.Domain, c)
+}
 
 // AssumeNoCheck adds a constraint without a feasibility query (for input-domain constraints).
 func (ex *Exec) AssumeNoCheck(c *smt.Term) {
 	if c.IsConst && c.B {
 		return
 	}
+	if ex.pcSet == nil {
+		ex.pcSet = map[*smt.Term]bool{}
+	}
+	if ex.pcSet[c] {
+		return
+	}
+	ex.pcSet[c] = true
 	ex.PC = append(ex.PC, c)
 	ex.noteFact(c)
 }
@@ -492,6 +510,13 @@ func (ex *Exec) Choose(guards []*smt.Term) int {
 			if g.B {
 				feas = append(feas, i)
 			}
+			continue
+		}
+		if ex.pcSet[g] { // the very same condition was already decided on this path
+			feas = append(feas, i)
+			continue
+		}
+		if ex.pcSet[ex.C.Not(g)] {
 			continue
 		}
 		if f, ok := ex.quickDecide(g); ok {
